@@ -40,8 +40,32 @@ type solveResult struct {
 }
 
 func runSolver(s solverSpec, file string, timeoutSec int) solveResult {
+	return runSolverCtx(context.Background(), s, file, timeoutSec)
+}
+
+// raceSolvers runs every configuration at once and returns as soon as one decides (the others are killed);
+// used for the few obligations the default configuration does not settle within a few seconds.
+func raceSolvers(file string, timeoutSec int) []solveResult {
+	ctx, cancel := context.WithCancel(context.Background())
+	defer cancel()
+	ch := make(chan solveResult, len(solvers))
+	for _, sv := range solvers {
+		go func(sv solverSpec) { ch <- runSolverCtx(ctx, sv, file, timeoutSec) }(sv)
+	}
+	var out []solveResult
+	for range solvers {
+		r := <-ch
+		out = append(out, r)
+		if r.status == "unsat" || r.status == "sat" {
+			break
+		}
+	}
+	return out
+}
+
+func runSolverCtx(parent context.Context, s solverSpec, file string, timeoutSec int) solveResult {
 	start := time.Now()
-	ctx, cancel := context.WithTimeout(context.Background(), time.Duration(timeoutSec+5)*time.Second)
+	ctx, cancel := context.WithTimeout(parent, time.Duration(timeoutSec+5)*time.Second)
 	defer cancel()
 	argv := s.argv(file, timeoutSec)
 	cmd := exec.CommandContext(ctx, argv[0], argv[1:]...)
@@ -157,41 +181,34 @@ func solveAll(qs []*query, dir string, timeoutSec int, workers int, thorough boo
 					continue
 				}
 				var results []solveResult
-				decided := false
-				for i, s := range solvers {
-					if decided && !thorough {
-						break
+				switch {
+				case qq.expect == "sat":
+					// covers: one quick attempt; only a proof of unsatisfiability matters
+					t := 5
+					if thorough {
+						t = 20
 					}
-					if qq.expect == "sat" && i > 0 {
-						break // covers: one quick attempt; only a proof of unsatisfiability matters
-					}
-					if qq.quick && i > 0 {
-						break
-					}
+					results = append(results, runSolver(solvers[0], file, t))
+				case qq.quick:
 					t := timeoutSec
-					if qq.quick && t > 10 {
+					if t > 10 {
 						t = 10
 					}
-					if qq.expect == "sat" {
-						t = 5
-						if thorough {
-							t = 20
-						}
+					results = append(results, runSolver(solvers[0], file, t))
+				case thorough:
+					for _, s := range solvers {
+						results = append(results, runSolver(s, file, timeoutSec))
 					}
-					if i > 0 && !thorough {
-						t = timeoutSec / 2
-						if t < 5 {
-							t = 5
-						}
+				default:
+					// stage 1: the default configuration, briefly; stage 2: every configuration at once
+					t1 := 6
+					if timeoutSec < t1 {
+						t1 = timeoutSec
 					}
-					r := runSolver(s, file, t)
+					r := runSolver(solvers[0], file, t1)
 					results = append(results, r)
-					if r.status == "unsat" || r.status == "sat" {
-						decided = true
-					}
-					if qq.expect == "sat" && r.status == "unknown" {
-						// covers: unknown is as good as it gets with quantifiers
-						decided = true
+					if r.status != "unsat" && r.status != "sat" {
+						results = append(results, raceSolvers(file, timeoutSec)...)
 					}
 				}
 				// pick
